@@ -184,5 +184,13 @@ func runC01(tier string, seed uint64, o *Out) error {
 		o.Line("C01 P %d # %s # %s", size, opsString(ops), obs)
 		o.Count("processing-time")
 	}
+	// SQL level: public API, real goroutines and timers; judged by the quiescent checker
+	nsql := 16
+	if tier == "thorough" {
+		nsql = 160
+	}
+	if err := winSQLCases(o, "C01", rng, nsql, false); err != nil {
+		return err
+	}
 	return nil
 }
